@@ -4,6 +4,8 @@ import (
 	"math/big"
 	"time"
 
+	sdk "github.com/pokt-network/posmint/types"
+
 	"verif/internal/chain"
 )
 
@@ -31,6 +33,13 @@ func (s *State) SpecDeliverTx(t chain.TxSpec, fee, reqFee int64, now time.Time, 
 	case bal.Cmp(big.NewInt(fee)) < 0:
 		out.Why = "balance below fee"
 		return out
+	}
+	if t.FeeAbc > 0 {
+		held, _ := sdk.ParseCoins(s.Other[signer])
+		if held.AmountOf("abc").LT(sdk.NewInt(t.FeeAbc)) {
+			out.Why = "balance below fee"
+			return out
+		}
 	}
 	out.AnteOK = true
 	bal.Sub(bal, big.NewInt(fee))
